@@ -272,3 +272,521 @@ def wsgi_call(app, path_qs, authorize=None):
             it.close()
     return scenario.Response(got.get('status'), got.get('headers', []), b''.join(chunks), start_calls=got['n'])
 
+
+# ---------------------------------------------------------------------------------------------------------------------
+# geometry: generation in the pixel space of a request frame, oracle rasterisation (pyproj + shapely only)
+# ---------------------------------------------------------------------------------------------------------------------
+_TR = {}
+
+
+def transformer(a, b):
+    import pyproj
+    k = (a, b)
+    if k not in _TR:
+        _TR[k] = pyproj.Transformer.from_crs(a, b, always_xy=True)
+    return _TR[k]
+
+
+class Frame(object):
+    """a rectangle of ground in an SRS rendered to w x h pixels"""
+
+    def __init__(self, srs, bbox, size):
+        self.srs = srs
+        self.bbox = tuple(float(v) for v in bbox)
+        self.size = (int(size[0]), int(size[1]))
+        self.rx = (self.bbox[2] - self.bbox[0]) / self.size[0]
+        self.ry = (self.bbox[3] - self.bbox[1]) / self.size[1]
+
+    def from_px(self, px, py):
+        return self.bbox[0] + px * self.rx, self.bbox[3] - py * self.ry
+
+    def to_px_arrays(self, X, Y):
+        return (np.asarray(X) - self.bbox[0]) / self.rx, (self.bbox[3] - np.asarray(Y)) / self.ry
+
+
+def _star(rng, cx, cy, rmin, rmax, n=None):
+    n = n or rng.randint(5, 9)
+    angs = sorted(rng.uniform(0, 2 * math.pi) for _ in range(n))
+    # keep the polygon star shaped and not degenerate: spread the angles
+    angs = [2 * math.pi * (i + rng.uniform(0.15, 0.85)) / n for i in range(n)]
+    return [(cx + math.cos(a) * r, cy + math.sin(a) * r) for a, r in ((a, rng.uniform(rmin, rmax)) for a in angs)]
+
+
+GEOM_CLASSES = ['box', 'poly', 'hole', 'hole_island_first', 'hole_island_last', 'multi', 'sliver', 'partly', 'outside',
+                'cover', 'multi_lines', 'overlap_lines']
+
+
+def gen_polys_px(rng, cls, w, h):
+    """list of WKT 'lines', each a list of polygons [(exterior, [holes])] in pixel space"""
+    m = float(min(w, h))
+    if cls == 'box':
+        x0, y0 = rng.uniform(0.05, 0.45) * w, rng.uniform(0.05, 0.45) * h
+        x1, y1 = rng.uniform(0.55, 0.95) * w, rng.uniform(0.55, 0.95) * h
+        return [[([(x0, y0), (x1, y0), (x1, y1), (x0, y1)], [])]]
+    if cls == 'poly':
+        return [[(_star(rng, rng.uniform(0.3, 0.7) * w, rng.uniform(0.3, 0.7) * h, 0.2 * m, 0.48 * m), [])]]
+    if cls in ('hole', 'hole_island_first', 'hole_island_last'):
+        cx, cy = rng.uniform(0.4, 0.6) * w, rng.uniform(0.4, 0.6) * h
+        R = rng.uniform(0.42, 0.55) * m
+        outer = (_star(rng, cx, cy, 0.75 * R, R, rng.randint(6, 10)), [_star(rng, cx, cy, 0.45 * R, 0.6 * R)[::-1]])
+        if cls == 'hole':
+            return [[outer]]
+        island = (_star(rng, cx, cy, 0.2 * R, 0.32 * R), [])
+        return [[island, outer] if cls == 'hole_island_first' else [outer, island]]
+    if cls in ('multi', 'multi_lines'):
+        cs = [(0.25, 0.28), (0.72, 0.6), (0.3, 0.8)][:rng.randint(2, 3)]
+        polys = [(_star(rng, a * w, b * h, 0.1 * m, 0.19 * m), []) for a, b in cs]
+        if cls == 'multi':
+            return [polys]
+        return [[p] for p in polys[:1]] + [polys[1:]]
+    if cls == 'overlap_lines':
+        c1 = (rng.uniform(0.3, 0.45) * w, rng.uniform(0.35, 0.65) * h)
+        c2 = (c1[0] + 0.2 * m, c1[1] + rng.uniform(-0.1, 0.1) * m)
+        return [[(_star(rng, c1[0], c1[1], 0.22 * m, 0.3 * m), [])], [(_star(rng, c2[0], c2[1], 0.22 * m, 0.3 * m), [])]]
+    if cls == 'sliver':
+        t = rng.uniform(0.15, 1.6)
+        if rng.random() < 0.5:
+            y1, y2 = rng.uniform(0.1, 0.9) * h, rng.uniform(0.1, 0.9) * h
+            return [[([(-10.0, y1), (w + 10.0, y2), (w + 10.0, y2 + t), (-10.0, y1 + t * rng.uniform(0.0, 1.0))], [])]]
+        x1, x2 = rng.uniform(0.1, 0.9) * w, rng.uniform(0.1, 0.9) * w
+        return [[([(x1, -10.0), (x1 + t, -10.0), (x2 + t * rng.uniform(0.0, 1.0), h + 10.0), (x2, h + 10.0)], [])]]
+    if cls == 'partly':
+        cx = rng.choice([0.0, 1.0, rng.uniform(0, 1)]) * w
+        cy = rng.choice([0.0, 1.0]) * h if 0 < cx < w else rng.uniform(0, 1) * h
+        return [[(_star(rng, cx, cy, 0.3 * m, 0.6 * m), [])]]
+    if cls == 'outside':
+        dx, dy = rng.choice([(2.2, 0.5), (-1.2, 0.5), (0.5, 2.2), (0.5, -1.2), (2.0, 2.0)])
+        return [[(_star(rng, dx * w, dy * h, 0.2 * m, 0.5 * m), [])]]
+    if cls == 'cover':
+        return [[([(-0.6 * w, -0.6 * h), (1.6 * w, -0.6 * h), (1.6 * w, 1.6 * h), (-0.6 * w, 1.6 * h)], [])]]
+    raise ValueError(cls)
+
+
+def _ring_wkt(ring):
+    pts = list(ring) + [ring[0]]
+    return '(' + ', '.join('%r %r' % (float(x), float(y)) for x, y in pts) + ')'
+
+
+def _poly_wkt_body(ext, holes):
+    return '(' + ', '.join([_ring_wkt(ext)] + [_ring_wkt(hh) for hh in holes]) + ')'
+
+
+def gen_geomspec(rng, frame, cls=None, form=None, srs=None):
+    """JSON-able limited_to description; the geometry is DEFINED in gs['srs'] by the vertices written out here"""
+    form = form or rng.choice(['bbox', 'wkt', 'wkt', 'shapely', 'shapely'])
+    if form == 'bbox':
+        cls = rng.choice(['box', 'box', 'box', 'partly_box', 'outside_box', 'cover'])
+    elif cls is None:
+        pool = [c for c in GEOM_CLASSES if form == 'wkt' or c not in ('multi_lines', 'overlap_lines')]
+        cls = rng.choice(pool)
+    srs = srs or (frame.srs if rng.random() < 0.4 else rng.choice([s for s in WMS_SRS if s != frame.srs]))
+    w, h = frame.size
+    tr = transformer(frame.srs, srs) if srs != frame.srs else None
+
+    def to_limit(ring):
+        out = []
+        for px, py in ring:
+            X, Y = frame.from_px(px, py)
+            if tr is not None:
+                X, Y = tr.transform(X, Y)
+            out.append((X, Y))
+        return out
+    if form == 'bbox':
+        if cls == 'partly_box':
+            x0, y0 = rng.uniform(-0.5, 0.3) * w, rng.uniform(-0.5, 0.3) * h
+            ring = [(x0, y0), (x0 + 0.7 * w, y0), (x0 + 0.7 * w, y0 + 0.8 * h), (x0, y0 + 0.8 * h)]
+        elif cls == 'outside_box':
+            ring = [(1.6 * w, 0.2 * h), (2.4 * w, 0.2 * h), (2.4 * w, 0.9 * h), (1.6 * w, 0.9 * h)]
+        else:
+            ring = gen_polys_px(rng, cls, w, h)[0][0][0]
+        pts = to_limit(ring)
+        xs, ys = [p[0] for p in pts], [p[1] for p in pts]
+        return {'cls': cls, 'form': 'bbox', 'srs': srs, 'bbox': [min(xs), min(ys), max(xs), max(ys)]}
+    lines = []
+    for polys in gen_polys_px(rng, cls, w, h):
+        bodies = [_poly_wkt_body(to_limit(ext), [to_limit(hh) for hh in holes]) for ext, holes in polys]
+        if len(bodies) == 1:
+            lines.append('POLYGON' + bodies[0])
+        else:
+            lines.append('MULTIPOLYGON(' + ', '.join(bodies) + ')')
+    return {'cls': cls, 'form': form, 'srs': srs, 'lines': lines}
+
+
+def limited_to_value(gs):
+    """what the authorization callback returns for this geometry"""
+    import shapely.wkt
+    from shapely.geometry import MultiPolygon
+    if gs['form'] == 'bbox':
+        return {'geometry': list(gs['bbox']), 'srs': gs['srs']}
+    if gs['form'] == 'wkt':
+        return {'geometry': '\n'.join(gs['lines']), 'srs': gs['srs']}
+    geoms = [shapely.wkt.loads(ln) for ln in gs['lines']]
+    if len(geoms) == 1:
+        g = geoms[0]
+    else:
+        parts = []
+        for g in geoms:
+            parts.extend(list(g.geoms) if g.geom_type == 'MultiPolygon' else [g])
+        g = MultiPolygon(parts)
+    return {'geometry': g, 'srs': gs['srs']}
+
+
+class GeomOracle(object):
+    """U / I = union / intersection of the two defensible images of the geometry in the frame (vertex-wise transformed,
+    densified then transformed), in PIXEL coordinates of the frame"""
+
+    def __init__(self, gs, frame):
+        import shapely
+        import shapely.wkt
+        import shapely.ops
+        from shapely.geometry import box
+        self.ok = True
+        self.frame = frame
+        if gs['form'] == 'bbox':
+            polys = [box(*gs['bbox'])]
+        else:
+            polys = []
+            for ln in gs['lines']:
+                g = shapely.wkt.loads(ln)
+                polys.extend(list(g.geoms) if g.geom_type == 'MultiPolygon' else [g])
+        w, h = frame.size
+        tr = transformer(gs['srs'], frame.srs) if gs['srs'] != frame.srs else None
+
+        def image(dens):
+            out = []
+            for p in polys:
+                if dens:
+                    b = p.bounds
+                    p = shapely.segmentize(p, max(max(b[2] - b[0], b[3] - b[1]) / 200.0, 1e-9))
+
+                def ring(r):
+                    xs, ys = np.asarray(r.coords.xy[0]), np.asarray(r.coords.xy[1])
+                    if tr is not None:
+                        xs, ys = tr.transform(xs, ys)
+                        xs, ys = np.asarray(xs), np.asarray(ys)
+                    if not (np.isfinite(xs).all() and np.isfinite(ys).all()):
+                        raise ValueError('not transformable')
+                    px, py = frame.to_px_arrays(xs, ys)
+                    return list(zip(px.tolist(), py.tolist()))
+                q = shapely.geometry.Polygon(ring(p.exterior), [ring(r) for r in p.interiors])
+                if not q.is_valid:
+                    q = shapely.make_valid(q)
+                out.append(q)
+            g = shapely.ops.unary_union(out)
+            return g.intersection(box(-64, -64, w + 64, h + 64))
+        try:
+            A = image(False)
+            B = image(True) if tr is not None else A
+            self.U = A.union(B) if B is not A else A
+            self.I = A.intersection(B) if B is not A else A
+            self.band_px = float(self.U.symmetric_difference(self.I).area) if B is not A else 0.0
+        except Exception as ex:
+            self.ok = False
+            self.err = repr(ex)
+            return
+        self._m = {}
+
+    def _centres(self):
+        w, h = self.frame.size
+        X, Y = np.meshgrid(np.arange(w) + 0.5, np.arange(h) + 0.5)
+        return X, Y
+
+    def outside(self, d):
+        """pixel centres outside U dilated by d px"""
+        import shapely
+        k = ('o', d)
+        if k not in self._m:
+            X, Y = self._centres()
+            g = self.U.buffer(d)
+            self._m[k] = ~shapely.contains_xy(g, X, Y) if not g.is_empty else np.ones(X.shape, dtype=bool)
+        return self._m[k]
+
+    def inside(self, d):
+        """pixel centres inside I eroded by d px"""
+        import shapely
+        k = ('i', d)
+        if k not in self._m:
+            X, Y = self._centres()
+            g = self.I.buffer(-d)
+            self._m[k] = shapely.contains_xy(g, X, Y) if not g.is_empty else np.zeros(X.shape, dtype=bool)
+        return self._m[k]
+
+    def point_class(self, px, py, d=1.0):
+        """'inside' (in I eroded by d), 'outside' (not in U dilated by d), 'band'"""
+        from shapely.geometry import Point
+        p = Point(px, py)
+        if not self.I.is_empty and self.I.buffer(-d).contains(p):
+            return 'inside'
+        if self.U.is_empty or not self.U.buffer(d).contains(p):
+            return 'outside'
+        return 'band'
+
+
+# ---------------------------------------------------------------------------------------------------------------------
+# authorization callback from a JSON-able description
+# ---------------------------------------------------------------------------------------------------------------------
+
+class Auth(object):
+    def __init__(self, spec):
+        self.spec = spec
+        self.calls = []
+        if spec['mode'] == 'partial':
+            res = {'authorized': 'partial', 'layers': {}}
+            for name, p in spec['layers'].items():
+                e = {}
+                for f in ('map', 'featureinfo', 'tile'):
+                    if f in p:
+                        e[f] = p[f]
+                if p.get('limited_to'):
+                    e['limited_to'] = limited_to_value(p['limited_to'])
+                res['layers'][name] = e
+            if spec.get('limited_to'):
+                res['limited_to'] = limited_to_value(spec['limited_to'])
+        else:
+            res = {'authorized': spec['mode']}
+        self.result = res
+
+    def __call__(self, service, layers=None, environ=None, **kw):
+        self.calls.append((service, list(layers or []), kw.get('query_extent')))
+        return self.result
+
+    def permitted(self, name, feature):
+        m = self.spec['mode']
+        if m == 'full':
+            return True
+        if m != 'partial':
+            return False
+        return self.spec['layers'].get(name, {}).get(feature, False) is True
+
+    def layer_limit(self, name):
+        if self.spec['mode'] != 'partial':
+            return None
+        return self.spec['layers'].get(name, {}).get('limited_to')
+
+    def global_limit(self):
+        if self.spec['mode'] != 'partial':
+            return None
+        return self.spec.get('limited_to')
+
+
+def full_auth(service, layers=None, environ=None, **kw):
+    return {'authorized': 'full'}
+
+
+# ---------------------------------------------------------------------------------------------------------------------
+# probes: generation
+# ---------------------------------------------------------------------------------------------------------------------
+BGCOLORS = ['0xffffff', '0x000000', '0xe6e6e6', '0x1e1e1e']
+
+
+def node_map(tree):
+    return {n[0]: n for n in walk(tree)}
+
+
+def resolve(tree, names):
+    """leaf layers (layers with own sources) a list of requested names stands for, in order, unique.  A group with own
+    sources stands for itself only."""
+    nm = node_map(tree)
+
+    def leaves(node):
+        if node[1]:
+            return [node[0]]
+        out = []
+        for c in node[2]:
+            out.extend(leaves(c))
+        return out
+    res = []
+    for n in names:
+        for lf in leaves(nm[n]):
+            if lf not in res:
+                res.append(lf)
+    return res
+
+
+def gen_auth(rng, spec, frame, relevant):
+    r = rng.random()
+    if r < 0.07:
+        return {'mode': 'full'}
+    if r < 0.15:
+        return {'mode': 'none'}
+    if r < 0.22:
+        return {'mode': 'unauthenticated'}
+    layers = {}
+    for name in [n[0] for n in walk(SHAPES[spec['shape']])]:
+        rel = name in relevant
+        if rng.random() < (0.04 if rel else 0.25):
+            continue                     # missing entry = denied
+        p = {}
+        for f in ('map', 'featureinfo', 'tile'):
+            x = rng.random()
+            if x < (0.9 if rel else 0.7):
+                p[f] = True
+            elif x < 0.96:
+                p[f] = False
+        if rel and rng.random() < 0.5:
+            p['limited_to'] = gen_geomspec(rng, frame)
+        layers[name] = p
+    a = {'mode': 'partial', 'layers': layers}
+    if rng.random() < 0.3:
+        a['limited_to'] = gen_geomspec(rng, frame)
+    return a
+
+
+def gen_wms_frame(rng):
+    srs = rng.choice(WMS_SRS)
+    lon, lat = rng.uniform(6.5, 13.5), rng.uniform(47.5, 53.5)
+    mpp = rng.choice([30.0, 120.0, 500.0, 2000.0]) * rng.uniform(0.7, 1.4)
+    w, h = rng.randint(96, 230), rng.randint(96, 230)
+    rx = {'EPSG:4326': mpp / 111320.0, 'EPSG:3857': mpp * 1.55, 'EPSG:25832': mpp}[srs]
+    ry = rx * (rng.uniform(0.7, 1.4) if rng.random() < 0.15 else 1.0)
+    cx, cy = transformer('EPSG:4326', srs).transform(lon, lat) if srs != 'EPSG:4326' else (lon, lat)
+    bbox = [cx - w * rx / 2, cy - h * ry / 2, cx + w * rx / 2, cy + h * ry / 2]
+    return Frame(srs, bbox, (w, h))
+
+
+def gen_wms_probe(rng, spec, fi=False):
+    tree = SHAPES[spec['shape']]
+    names = [n[0] for n in walk(tree)]
+    frame = gen_wms_frame(rng)
+    k = rng.choice([1, 1, 2, 2, 3, 4])
+    layers = rng.sample(names, min(k, len(names)))
+    req = {'layers': layers, 'srs': frame.srs, 'bbox': list(frame.bbox), 'size': list(frame.size),
+           'format': rng.choice(['image/png', 'image/png', 'image/jpeg']), 'transparent': rng.random() < 0.55,
+           'bgcolor': rng.choice(BGCOLORS), 'version': rng.choice(['1.1.1', '1.1.1', '1.3.0'])}
+    relevant = resolve(tree, layers)
+    auth = gen_auth(rng, spec, frame, relevant)
+    probe = {'service': 'wms_fi' if fi else 'wms_map', 'req': req, 'auth': auth,
+             'order': rng.choice(['auth_first', 'ref_first'])}
+    if fi:
+        req['query_layers'] = list(layers) if rng.random() < 0.8 else rng.sample(layers, rng.randint(1, len(layers)))
+        req['format'] = 'image/png'
+        req['pos'] = choose_click(rng, frame, auth, resolve(tree, req['query_layers']))
+    return probe
+
+
+def choose_click(rng, frame, auth_spec, leaves):
+    """pixel (i, j) inside / outside / near a geometry that gates one of the leaves"""
+    w, h = frame.size
+    a = Auth.__new__(Auth)
+    a.spec = auth_spec
+    cands = [g for g in [a.layer_limit(lf) for lf in leaves] + [a.global_limit()] if g]
+    pos = [rng.randrange(w), rng.randrange(h)]
+    if not cands:
+        return pos
+    go = GeomOracle(rng.choice(cands), frame)
+    if not go.ok:
+        return pos
+    want = rng.choice(['inside', 'inside', 'outside', 'outside', 'near'])
+    if want == 'inside':
+        m = go.inside(1.5)
+    elif want == 'outside':
+        m = go.outside(1.5)
+    else:
+        m = ~go.inside(1.5) & ~go.outside(1.5)
+    idx = np.argwhere(m)
+    if len(idx) == 0:
+        return pos
+    j, i = idx[rng.randrange(len(idx))]
+    return [int(i), int(j)]
+
+
+TILE_SERVICES = ['tms', 'tiles', 'tiles_nw', 'wmts_kvp', 'wmts_rest', 'kml', 'kml_doc']
+
+
+def tile_frame(leaf, z, x, y, nw):
+    G = GRIDS[leaf['grid']]
+    span = G['r0'] / 2 ** z * TILE
+    x0 = G['bbox'][0] + x * span
+    if nw:
+        y1 = G['bbox'][3] - y * span
+        y0 = y1 - span
+    else:
+        y0 = G['bbox'][1] + y * span
+        y1 = y0 + span
+    return Frame(G['srs'], (x0, y0, x0 + span, y1), (TILE, TILE))
+
+
+def gen_tile_probe(rng, spec, fi=False):
+    cached = sorted(n for n, lf in spec['leaves'].items() if lf['kind'] != 'direct')
+    if not cached:
+        return None
+    name = rng.choice(cached)
+    leaf = spec['leaves'][name]
+    z = rng.randint(1, 6)
+    n = 2 ** z
+    x, y = rng.randrange(n), rng.randrange(n)
+    service = rng.choice(['wmts_fi_kvp', 'wmts_fi_rest']) if fi else rng.choice(TILE_SERVICES)
+    nw = service.startswith('wmts') or service == 'tiles_nw'
+    frame = tile_frame(leaf, z, x, y, nw)
+    auth = gen_auth(rng, spec, frame, [name])
+    probe = {'service': service, 'req': {'layer': name, 'z': z, 'x': x, 'y': y}, 'auth': auth,
+             'order': rng.choice(['auth_first', 'ref_first'])}
+    if fi:
+        probe['req']['pos'] = choose_click(rng, frame, auth, [name])
+    return probe
+
+
+def gen_probe(rng, spec):
+    kind = rng.choice(['wms_map'] * 9 + ['wms_fi'] * 4 + ['tile'] * 9 + ['wmts_fi'] * 3)
+    if kind == 'wms_map':
+        return gen_wms_probe(rng, spec)
+    if kind == 'wms_fi':
+        return gen_wms_probe(rng, spec, fi=True)
+    p = gen_tile_probe(rng, spec, fi=(kind == 'wmts_fi'))
+    return p or gen_wms_probe(rng, spec)
+
+
+# ---------------------------------------------------------------------------------------------------------------------
+# probes: URLs
+# ---------------------------------------------------------------------------------------------------------------------
+
+def wms_url(req, fi=False):
+    b = list(req['bbox'])
+    p = [('SERVICE', 'WMS'), ('VERSION', req['version']), ('REQUEST', 'GetFeatureInfo' if fi else 'GetMap'),
+         ('LAYERS', ','.join(req['layers'])), ('STYLES', '')]
+    if req['version'] == '1.3.0':
+        p.append(('CRS', req['srs']))
+        if upstream.northing_first(req['srs']):
+            b = [b[1], b[0], b[3], b[2]]
+    else:
+        p.append(('SRS', req['srs']))
+    p += [('BBOX', ','.join(repr(float(v)) for v in b)), ('WIDTH', str(req['size'][0])), ('HEIGHT', str(req['size'][1])),
+          ('FORMAT', req['format'])]
+    if fi:
+        p += [('QUERY_LAYERS', ','.join(req['query_layers'])), ('INFO_FORMAT', 'text/plain')]
+        if req['version'] == '1.3.0':
+            p += [('I', str(req['pos'][0])), ('J', str(req['pos'][1]))]
+        else:
+            p += [('X', str(req['pos'][0])), ('Y', str(req['pos'][1]))]
+    else:
+        p += [('TRANSPARENT', 'true' if req['transparent'] else 'false'), ('BGCOLOR', req['bgcolor'])]
+    return '/service?' + urllib.parse.urlencode(p, safe=':/,')
+
+
+def tile_url(service, req, leaf):
+    name, z, x, y = req['layer'], req['z'], req['x'], req['y']
+    ext = 'png' if leaf['kind'] == 'cache_png' else 'jpeg'
+    spec_ = GRIDS[leaf['grid']]['srs'].replace(':', '')
+    gname = '%s_%s' % (leaf['grid'], leaf['origin'])
+    if service == 'tms':
+        return '/tms/1.0.0/%s/%s/%d/%d/%d.%s' % (name, spec_, z, x, y, ext)
+    if service == 'tiles':
+        return '/tiles/%s/%s/%d/%d/%d.%s' % (name, spec_, z, x, y, ext)
+    if service == 'tiles_nw':
+        return '/tiles/%s/%s/%d/%d/%d.%s?origin=nw' % (name, spec_, z, x, y, ext)
+    if service == 'kml':
+        return '/kml/%s/%s/%d/%d/%d.%s' % (name, spec_, z, x, y, ext)
+    if service == 'kml_doc':
+        return '/kml/%s/%s/%d/%d/%d.kml' % (name, spec_, z, x, y)
+    if service == 'wmts_rest':
+        return '/wmts/%s/%s/%d/%d/%d.%s' % (name, gname, z, x, y, ext)
+    if service == 'wmts_kvp':
+        return ('/service?SERVICE=WMTS&REQUEST=GetTile&VERSION=1.0.0&LAYER=%s&STYLE=&TILEMATRIXSET=%s&TILEMATRIX=%d'
+                '&TILEROW=%d&TILECOL=%d&FORMAT=image/%s' % (name, gname, z, y, x, ext))
+    if service == 'wmts_fi_rest':
+        return '/wmts/%s/%s/%d/%d/%d/%d/%d.txt' % (name, gname, z, x, y, req['pos'][0], req['pos'][1])
+    if service == 'wmts_fi_kvp':
+        return ('/service?SERVICE=WMTS&REQUEST=GetFeatureInfo&VERSION=1.0.0&LAYER=%s&STYLE=&TILEMATRIXSET=%s&TILEMATRIX=%d'
+                '&TILEROW=%d&TILECOL=%d&FORMAT=image/%s&INFOFORMAT=text/plain&I=%d&J=%d' % (
+                    name, gname, z, y, x, ext, req['pos'][0], req['pos'][1]))
+    raise ValueError(service)
